@@ -22,8 +22,8 @@ import re
 
 from ..absint import NONE, Val, enum_table, marker, ok, run, some, struct_val, variant
 from ..flow import arg_origins, origins
-from ..mir import op_const, op_local
-from ..util import agg_assigns, polls, unreachable_without, where
+from ..mir import op_const, op_local, strip_generics
+from ..util import agg_assigns, enum_edges, polls, unreachable_without, where
 from .c03 import new_key_flag_rule
 
 LEVEL = "other"
@@ -84,14 +84,14 @@ def check(ctx):
     nb = prog.must_body("acmed::acme_proto::structs::order::NewOrder::new")
     for i, st in agg_assigns(nb, "acmed::acme_proto::structs::order::NewOrder"):
         idx = st["rv"]["fields"].index("identifiers")
-        sl = origins(nb, st["rv"]["ops"][idx])
+        sl = origins(nb, st["rv"]["ops"][idx], through=True)
         ctx.require(R1, sl.has_leaf("param:1") and not shrinkers_in(sl), where(nb, i), "NewOrder.identifiers = every element of the parameter (%s)" % shrinkers_in(sl), ["NewOrder::new", "identifiers"])
         ctx.require(R1, "fn:acmed::acme_proto::structs::order::Identifier::from_generic" in sl.leaves or any(x.is_("acmed::acme_proto::structs::order::Identifier::from_generic") for x in sl.calls),
                     where(nb, i), "each element goes through Identifier::from_generic", ["NewOrder::new", "from_generic"])
     fg = prog.must_body("acmed::acme_proto::structs::order::Identifier::from_generic")
     for i, st in agg_assigns(fg, "acmed::acme_proto::structs::order::Identifier"):
         for fld in st["rv"]["fields"]:
-            sl = origins(fg, st["rv"]["ops"][st["rv"]["fields"].index(fld)])
+            sl = origins(fg, st["rv"]["ops"][st["rv"]["fields"].index(fld)], through=True)
             ctx.require(R1, {f for a, f in sl.fields if a == IDENT} == {fld}, where(fg, i), "order identifier `%s` <- configured identifier `%s`" % (fld, fld), ["from_generic", fld])
 
     R2 = ctx.rule("R2", "CSR dNSName list = identifiers with id_type Dns, iPAddress list = identifiers with id_type Ip, each entry's `value`")
@@ -105,22 +105,43 @@ def check(ctx):
             clos = [prog.body(l[8:]) for l in sl.leaves_like("closure:") if prog.body(l[8:])]
             filt = [x for x in clos if x.raw.get("output") is None and returns_bool(x)]
             maps = [x for x in clos if x not in filt]
-            ctx.require(R2, len(filt) == 1 and len(maps) == 1, c.where(), "`%s` = identifiers.filter(1 predicate).map(1 projection) (found %d/%d)" % (pname, len(filt), len(maps)), [RC, "csr-shape", pname])
+            pushes = [x for x in sl.calls if x.is_("alloc::vec::Vec::push")]
+            # accepted shapes: identifiers.filter(predicate).map(projection).collect()  |  a loop pushing under a test of id_type
+            ctx.require(R2, (len(filt) >= 1 and len(maps) == 1 and not pushes) or (pushes and not filt), c.where(),
+                        "`%s` is selected from the identifiers by a filter predicate or by pushes under a test of id_type (found %d predicate(s), %d projection(s), %d push(es))"
+                        % (pname, len(filt), len(maps), len(pushes)), [RC, "csr-shape", pname])
             others = [v for v in shrinkers_in(sl) if not v.endswith("::filter")]
             ctx.require(R2, not others, c.where(), "no other element is dropped from `%s` (%s)" % (pname, others), [RC, "csr-shrunk", pname])
-            for f in filt:
-                for v in prog.adt_variants(IDT):
-                    ident = struct_val(prog, IDENT, {"id_type": variant(IDT, v), "value": marker("VAL")})
-                    r = run(f, {2: Val("ref", Val("ref", ident))})
-                    if r.kind != "return" or r.ret.k != "bool":
-                        ctx.fail(R2, "%s:%s" % (f.file, f.line), "the `%s` predicate cannot be evaluated for %s" % (pname, v), [RC, "csr-predicate-eval", pname])
-                        continue
-                    passes.setdefault(v, []).append(pname) if r.ret.v else None
-                    ctx.require(R2, r.ret.v == (v == want), "%s:%s" % (f.file, f.line), "identifier of type %s %s the `%s` list" % (v, "enters" if r.ret.v else "does not enter", pname),
-                                [RC, "csr-predicate", pname, v])
+            for v in prog.adt_variants(IDT):
+                enters = None
+                if filt:
+                    enters = True
+                    for f in filt:
+                        ident = struct_val(prog, IDENT, {"id_type": variant(IDT, v), "value": marker("VAL")})
+                        r = run(f, {1: closure_env(prog, b, f, sl), 2: Val("ref", Val("ref", ident))})
+                        if r.kind != "return" or r.ret.k != "bool":
+                            enters = None
+                            break
+                        enters = enters and r.ret.v
+                elif pushes:
+                    rem, ntests = enum_edges(b, (IDENT, "id_type"), v)
+                    if ntests:
+                        reach = b.reachable(0, removed_edges=rem)
+                        enters = any(x.bb in reach for x in pushes)
+                if enters is None:
+                    ctx.fail(R2, c.where(), "the selection of `%s` cannot be evaluated for %s" % (pname, v), [RC, "csr-predicate-eval", pname])
+                    continue
+                if enters:
+                    passes.setdefault(v, []).append(pname)
+                ctx.require(R2, enters == (v == want), c.where(), "identifier of type %s %s the `%s` list" % (v, "enters" if enters else "does not enter", pname),
+                            [RC, "csr-predicate", pname, v])
             for m in maps:
                 reads = {(e.get("adt"), e.get("n")) for blk in m.blocks for st in blk["stmts"] if st["s"] == "assign" for e in (st["rv"].get("place") or {"p": []})["p"] if isinstance(e, dict)}
                 ctx.require(R2, (IDENT, "value") in reads and (IDENT, "id_type") not in reads, "%s:%s" % (m.file, m.line), "`%s` entries are the identifiers' `value`" % pname, [RC, "csr-projection", pname])
+            for x in pushes:
+                vs = arg_origins(x, 1)
+                idf = {f for a, f in vs.fields if a == IDENT}
+                ctx.require(R2, idf == {"value"}, x.where(), "`%s` entries are the identifiers' `value` (%s)" % (pname, sorted(idf)), [RC, "csr-projection", pname])
     for v in prog.adt_variants(IDT):
         ctx.require(R2, len(passes.get(v, [])) == 1, "acmed/src/acme_proto.rs", "every identifier type reaches exactly one CSR list (%s -> %s)" % (v, passes.get(v)), [RC, "csr-partition", v])
 
@@ -212,6 +233,22 @@ def check(ctx):
     csr_internals(ctx)
 
 
+def closure_env(prog, body, clos, sl):
+    """abstract environment (argument 1) of a closure: its captured values, taken from the closure construction that the
+    slice `sl` passes through (a helper inlined twice yields two constructions of the same closure with different captures)"""
+    vals = []
+    for i, st in agg_assigns(body, kind="closure"):
+        if st["rv"].get("def") != clos.key or st["lhs"]["l"] not in sl.locals:
+            continue
+        for o in st["rv"]["ops"]:
+            cs_ = origins(body, o).consts
+            vs = {(strip_generics(x.get("adt") or str(x.get("pp", "")).rsplit("::", 1)[0]), x.get("variant") or str(x.get("pp", "")).rsplit("::", 1)[-1]) for x in cs_}
+            vs = {x for x in vs if x[0].endswith("IdentifierType")}
+            vals.append(Val("ref", variant(IDT, next(iter(vs))[1])) if len(vs) == 1 else Val("unknown", "capture"))
+        break
+    return Val("ref", Val("adt", vals, ("closure", "env")))
+
+
 def returns_bool(body):
     return body.local_ty(0) == "bool"
 
@@ -232,14 +269,27 @@ def csr_internals(ctx):
         ctx.require(R5, any(x.is_("acme_common::crypto::openssl_certificate::get_digest") for x in d.calls), c.where(), "the signing digest comes from get_digest", ["Csr::new", "digest"])
     for c in cb.calls_to("acme_common::crypto::openssl_certificate::get_digest"):
         ctx.require(R5, arg_origins(c, 0).has_leaf("param:2") and arg_origins(c, 1).has_leaf("param:1"), c.where(), "get_digest(digest parameter, key_pair)", ["Csr::new", "digest-args"])
+    from .guards import body_family, closure_users
+    fam = body_family(prog, CSR)
     for name, param, what in (("openssl::x509::extension::SubjectAlternativeName::dns", 3, "dNSName"), ("openssl::x509::extension::SubjectAlternativeName::ip", 4, "iPAddress")):
-        calls = cb.calls_to(name)
+        calls = [c for fb in fam for c in fb.calls_to(name)]
         ctx.floor(R5, "SubjectAlternativeName::%s call" % name.rsplit("::", 1)[1], len(calls), 1)
         for c in calls:
             sl = arg_origins(c, 1)
             only = {l.split(".")[0] for l in sl.leaves if l.startswith("param:")}
-            ctx.require(R5, only == {"param:%d" % param}, c.where(), "%s entries come from the %s parameter (%s)" % (what, "domains" if param == 3 else "ips", sorted(only)), ["Csr::new", "san", what])
-            ctx.require(R5, cb.scc_of(c.bb) is not None and not shrinkers_in(sl), c.where(), "one %s entry per list element" % what, ["Csr::new", "san-all", what])
+            if c.body is cb:
+                # a loop of Csr::new over the parameter
+                ctx.require(R5, only == {"param:%d" % param}, c.where(), "%s entries come from the %s parameter (%s)" % (what, "domains" if param == 3 else "ips", sorted(only)), ["Csr::new", "san", what])
+                ctx.require(R5, cb.scc_of(c.bb) is not None and not shrinkers_in(sl), c.where(), "one %s entry per list element" % what, ["Csr::new", "san-all", what])
+            else:
+                # inside a closure handed to an internal-iteration adaptor: list.iter().for_each(|x| san.dns(x))
+                users = closure_users(cb, c.body.key)
+                good = only == {"param:2"} and len(users) == 1 and users[0].name.rsplit("::", 1)[-1] in ("for_each", "try_for_each")
+                rsl = arg_origins(users[0], 0) if users else None
+                ronly = {l.split(".")[0] for l in rsl.leaves if l.startswith("param:")} if rsl else set()
+                ctx.require(R5, good and ronly == {"param:%d" % param}, c.where(), "%s entries come from the %s parameter (%s via %s)" % (what, "domains" if param == 3 else "ips", sorted(ronly), [u.name for u in users]),
+                            ["Csr::new", "san", what])
+                ctx.require(R5, good and not shrinkers_in(rsl) and not shrinkers_in(sl), c.where(), "one %s entry per list element" % what, ["Csr::new", "san-all", what])
     ok_ret = [i for i, st in agg_assigns(cb, "core::result::Result", "Ok") if st["lhs"]["l"] == 0]
     for nm in ("openssl::x509::extension::SubjectAlternativeName::build", "openssl::stack::StackRef::push", "openssl::x509::X509ReqBuilder::add_extensions",
                "openssl::x509::X509ReqBuilder::sign", "openssl::x509::X509ReqBuilder::set_pubkey"):
